@@ -10,6 +10,7 @@ using namespace libphysica;
 using namespace vf;
 
 static const char* KEY_D15 = "C11-nelder-mead-collapse-small-simplex";
+static const char* KEY_D15B = "C11-nelder-mead-initial-spread-below-ftol";
 
 // ------------------------------------------------------------------------------------------ 1D
 struct Obj1
@@ -372,7 +373,13 @@ static void convergence_case(Rng& rng, bool in_regime, bool witness, uint64_t in
 	double excess = ff - o.f0, excess0 = fi - o.f0;
 	double tolx	  = std::max(1e4 * ftol * (std::fabs(o.f0) + 1e-10), 1e-3 * excess0) + 64 * EPS * std::fabs(o.f0);
 	auto det	  = [&] { return J().d("excess", excess).d("initial_excess", excess0).i("nmax_hit", nmax).i("spread_ok", spread).i("iterations", (long long) its); };
-	if(in_regime)
+	if(in_regime && !(excess <= tolx) && its <= 1 && !nmax && spread)
+	{
+		// recorded finding D15b: the routine's only stopping test is the fractional spread of the vertex values; an initial simplex whose vertices
+		// happen to have (nearly) equal values - e.g. placed symmetrically about the minimiser - meets it before the first move and is returned as is
+		known_hit(KEY_D15B, "returned at once: the vertex values of the initial simplex already agree within ftol", det());
+	}
+	else if(in_regime)
 	{
 		judge("nd-convergence-quadratic", excess, tolx, det);
 		if(!nmax)
@@ -394,6 +401,32 @@ static void convergence_case(Rng& rng, bool in_regime, bool witness, uint64_t in
 		}
 	}
 	(void) index;
+}
+
+// recorded witness of finding D15b: f = 25 + (x-0.25)^2 with the initial vertices -1.75 and 2.25 (symmetric about the minimiser, equal values)
+static void d15b_witness(Rng&, uint64_t index)
+{
+	double c = 0.25, f0 = 25.0, d = 2.0 + (double) index;
+	set_params(J().d("centre", c).d("f0", f0).d("start", c - d).d("delta", 2 * d).d("ftol", 1e-5).i("recorded_witness", (long long) index));
+	hash_param_u(index);
+	mark_nontrivial();
+	std::function<double(std::vector<double>)> f = [=](std::vector<double> x) { return f0 + (x[0] - c) * (x[0] - c); };
+	Minimization M(1e-5);
+	std::vector<double> start = {c - d};
+	uint64_t i0 = ticks("NelderMead.iteration");
+	std::vector<double> res;
+	{
+		BudgetGuard g(2000000);
+		res = M.minimize(start, 2 * d, f);
+	}
+	uint64_t its = ticks("NelderMead.iteration") - i0;
+	double excess = f(res) - f0;
+	auto det = [&] { return J().d("returned", res.empty() ? NAN : res[0]).d("excess", excess).i("iterations", (long long) its); };
+	require("nd-descent", f(res) <= f(start), det);
+	if(excess > 1e-3 && its <= 1)
+		known_hit(KEY_D15B, "returned at once: the vertex values of the initial simplex already agree within ftol", det());
+	else if(excess > 1e-3)
+		require("nd-convergence-quadratic", false, det, "C11-symmetric-simplex-failure-outside-D15b-signature");
 }
 
 // one Minimization object reused for a sequence of independent minimisations: every call must converge like a call on a fresh object
@@ -427,6 +460,11 @@ static void reused_object_case(Rng& rng, uint64_t index)
 			return;
 		double excess = ff - o.f0, excess0 = fi - o.f0;
 		double tolx	  = std::max(1e4 * ftol * (std::fabs(o.f0) + 1e-10), 1e-3 * excess0) + 64 * EPS * std::fabs(o.f0);
+		if(!(excess <= tolx) && its <= 1 && !nmax && spread)
+		{
+			known_hit(KEY_D15B, "returned at once: the vertex values of the initial simplex already agree within ftol", J().i("call_number", c).d("excess", excess));
+			continue;
+		}
 		judge("nd-convergence-on-a-reused-object", excess, tolx, [&] { return J().i("call_number", c).d("excess", excess).d("initial_excess", excess0).i("nmax_hit", nmax).i("evaluations_this_call", evals).i("nfunc_reported", M.nfunc); });
 	}
 }
@@ -434,6 +472,7 @@ static void reused_object_case(Rng& rng, uint64_t index)
 static void setup()
 {
 	add_generator("nd_reused_object", ctx().count(600, 60000), reused_object_case);
+	add_generator("d15b_witness", 3, d15b_witness);
 	add_generator("d15_witness", 12, [](Rng& rng, uint64_t i) { convergence_case(rng, false, true, i); });
 	add_generator("one_dimensional", ctx().count(100000, 10000000), case_1d);
 	add_generator("nd_descent", ctx().count(15000, 1500000), case_nd_descent);
